@@ -14,8 +14,8 @@ MANIFEST = {
          "read(2) outcome schedules (short reads, EAGAIN, EINTR, errors) and all epoll event sequences: delivered bytes are "
          "an in-order prefix of what the peer wrote and all of it at a read-0 EOF; every alloc_cb is followed by exactly one "
          "read_cb with that buffer; no callback after UV_EOF / read error / uv_read_stop until uv_read_start succeeds; at most "
-         "32 alloc/read rounds per wakeup; the synthetic EOF on POLLHUP loses nothing when short reads imply a drained socket "
-         "(and DOES lose data otherwise: negation proved, reproduced on IPC pipes with descriptor-carrying messages). The model "
+         "32 alloc/read rounds per wakeup; the synthetic EOF on POLLHUP never loses data on IPC pipes (no kernel assumption) and on other streams when short "
+         "reads imply a drained socket (and DOES lose data otherwise: negation proved; that was the IPC data-loss defect, now fixed). The model "
          "is tied to the working tree by running the real library on real sockets and diffing every line, plus independent monitors.",
  "note": "Trusted: Lean kernel; kernel read semantics built into the model's `kread` (bytes from the head of the receive "
          "buffer, 0 only when empty and peer shut down) - re-checked on every run because the logged outcomes must be "
@@ -205,6 +205,11 @@ def monitor(case, out):
                 quiet, why = True, "UV_EOF was reported and uv_read_start not called since"
             elif n == ENOBUFS:
                 st["enobufs"] += 1
+            elif n in (-4, -11):
+                # EINTR / EAGAIN of read(2)/recvmsg(2) are in the property's quantifier as conditions under which the
+                # stream must still be exact: surfacing them as a read error ends the stream and strands the rest
+                raise Bad("transient-errno-reported-as-read-error", f"read_cb({n}): a transient {'EINTR' if n == -4 else 'EAGAIN'} from "
+                          f"{'recvmsg' if kind == 'ipc' else 'read'} was reported as a read error ({sent - delivered} bytes undelivered)")
             elif n < 0:
                 quiet, why = True, f"a read error ({n}) was reported and uv_read_start not called since"
         elif w[0] == "ret":
@@ -348,6 +353,9 @@ def run(ctx):
                     "kernel read semantics as encoded in StreamR.kread (checked against every logged outcome)"]
     ctx.assumptions += ["no uv_read_start/uv_read_stop/uv_close inside alloc_cb (uv_read_stop there makes uv__read call a NULL read_cb)",
                         "write side idle (nothing queued, no shutdown request); handle opened with uv_pipe_open/uv_tcp_open"]
+    ctx.notes["lead_not_generated"] = ("non-IPC uv_pipe_t on a unix socket whose peer sends a descriptor-carrying message, more data, then closes: "
+                                       "read(2) stops at the message boundary, READ_PARTIAL is set, POLLHUP -> synthetic UV_EOF, trailing data "
+                                       "never delivered (reproducer corpus/C06/pipe-nonipc-fd-msg-hup.lead; `peer fd` is generated for IPC pipes only)")
     ctx.require_lean(["UvModel.Props.C06"])
     exe = ctx.harness("c06_sim", ["harness/c06_sim.c"], link_lib=True)
     if exe is None:
